@@ -190,6 +190,15 @@ async fn poll_and_cancel(
     Ok((landing, None, took, trace, spared))
 }
 
+/// Drives one `next` call to completion. The queue was seen non-empty just before, but the COMMIT
+/// of an earlier dropped future may still dequeue the item behind our back (on a tree with the
+/// K-C12 / C10 defects); then `next` parks on the notifier for good. That is detected (suspended
+/// outside every store call, not woken) and reported as "nothing to return" instead of hanging.
+async fn drive_next(orderer: &Orderer<Item, Hash, ProbeStore>, store: &ProbeStore) -> Result<Option<Item>, String> {
+    let (_, out, _, _, _) = poll_and_cancel(orderer, store, Point::Notify, 1, false).await?;
+    Ok(out)
+}
+
 async fn run_case(env: &Env, case: &Case, dir: &CaseDir, stats: &mut Stats) -> Result<(), String> {
     let res = case.graph.resolve();
     // Dependency lists are de-duplicated: repeated entries are C11's subject (F-C11).
@@ -255,13 +264,13 @@ async fn run_case(env: &Env, case: &Case, dir: &CaseDir, stats: &mut Stats) -> R
                     break;
                 }
                 ensure!(n_returned <= bound, "ready queue does not drain: {n_returned} items returned after {} deliveries of {} items", pos + 1, items.len());
-                match orderer.next().await {
-                    Ok(item) => {
+                match drive_next(&orderer, &store).await? {
+                    Some(item) => {
                         let k = index_of(&item.0.hash).ok_or_else(|| "next() returned an unknown item".to_string())?;
                         returned.insert(k);
                         n_returned += 1;
                     }
-                    Err((_, e)) => return Err(format!("next() failed: {}", ord_err(&e))),
+                    None => break,
                 }
             }
         }
@@ -273,13 +282,13 @@ async fn run_case(env: &Env, case: &Case, dir: &CaseDir, stats: &mut Stats) -> R
             break;
         }
         ensure!(n_returned <= bound, "ready queue does not drain at the end: {n_returned} items returned");
-        match orderer.next().await {
-            Ok(item) => {
+        match drive_next(&orderer, &store).await? {
+            Some(item) => {
                 let k = index_of(&item.0.hash).ok_or_else(|| "next() returned an unknown item".to_string())?;
                 returned.insert(k);
                 n_returned += 1;
             }
-            Err((_, e)) => return Err(format!("next() failed: {}", ord_err(&e))),
+            None => break,
         }
     }
 
